@@ -22,7 +22,11 @@
 ##################################################################
 def convert2Es6Format(value):
 # Convert double/float to str using the native Python formatter
-    fvalue = float(value)
+    try:
+        fvalue = float(value)
+    except OverflowError:
+        # An integer beyond the range of an IEEE 754 double
+        raise ValueError("Invalid JSON number: " + str(value)[:40] + "...")
 #
 # Zero is a special case.  The following line takes "-0" case as well
 #
